@@ -108,6 +108,8 @@ def sndLine (toks : List String) : String :=
   | "snd" :: b :: w :: tmo :: rep :: chk :: file :: evs =>
     match b.toNat?, w.toNat?, tmo.toNat?, rep.toNat?, parseContent file with
     | some b, some w, some tmo, some rep, some f =>
+      -- `S<ms>` (what one send costs on the simulated clock) is not an event: the timer is armed after the window has been sent
+      let evs := evs.filter fun e => !(e.startsWith "S" && (e.drop 1).toString.toNat?.isSome)
       match evs.mapM (parseSEv tmo) with
       | none => "bad-op"
       | some es =>
